@@ -200,10 +200,10 @@ fn run_one<K: Kit>(ctx: &Ctx, b: &mut Batch, kit: &K, h: &History, trigger: Trig
 
 pub fn run(tier: Tier, seed: u64) -> i32 {
     let ctx = Ctx::new("C08", tier, seed, "fault_enumeration");
-    let n_hist = tier.pick(8_000, 60_000);
-    let n_worlds_exh = tier.pick(0usize, 24);
-    let n_fault_worlds = tier.pick(48usize, 240);
-    let n_w1 = tier.pick(4_000usize, 60_000);
+    let n_hist = tier.pick(8_000, 250_000);
+    let n_worlds_exh = tier.pick(0usize, 48);
+    let n_fault_worlds = tier.pick(48usize, 960);
+    let n_w1 = tier.pick(4_000usize, 300_000);
     let shards = 64;
     par_shards(shards, crate::util::n_threads(), |sh| {
         let mut b = Batch::default();
